@@ -14,24 +14,40 @@ open Conv
 
 let b2s b = if b then "1" else "0"
 
+(* Peano numerals with shared tails: index k is the k-th cell of one chain, so that the thousands of row /
+   column indices of a dump cost one pointer each instead of k words each *)
+let nat_cache : nat array ref = ref [| O |]
+let natm (k : int) : nat =
+  if k < 0 then O else begin
+    let c = !nat_cache in
+    if k < Array.length c then c.(k) else begin
+      let m = max (k + 1) (2 * Array.length c) in
+      let a = Array.make m O in
+      Array.blit c 0 a 0 (Array.length c);
+      for i = Array.length c to m - 1 do a.(i) <- S a.(i - 1) done;
+      nat_cache := a; a.(k)
+    end
+  end
+let next_natm t = natm (next_int t)
+
 (* rows of a csr from triples, in the order given; a row index beyond n makes the matrix ill-formed on purpose *)
 let csr_of_triples n nc (tr : (int * int * qc) list) : qc csr =
   let m = List.fold_left (fun a (i, _, _) -> max a (i + 1)) n tr in
   let rows = Array.make m [] in
-  List.iter (fun (i, j, v) -> rows.(i) <- (nat_of_int j, v) :: rows.(i)) tr;
-  { csr_nr = nat_of_int n; csr_nc = nat_of_int nc; csr_rows = Array.to_list (Array.map List.rev rows) }
+  List.iter (fun (i, j, v) -> rows.(i) <- (natm j, v) :: rows.(i)) tr;
+  { csr_nr = natm n; csr_nc = natm nc; csr_rows = Array.to_list (Array.map List.rev rows) }
 
 let read_triples t k = take k (fun () -> let i = next_int t in let j = next_int t in let v = next_q t in (i, j, v))
-let read_map t = let k = next_int t in next_nats t k
-let read_vd t = let g = next_nat t in let l = next_nat t in let s = next_nat t in { vd_global = g; vd_local = l; vd_store = s }
+let read_map t = let k = next_int t in take k (fun () -> next_natm t)
+let read_vd t = let g = next_natm t in let l = next_natm t in let s = next_natm t in { vd_global = g; vd_local = l; vd_store = s }
 
 let read_rank t : rdump =
-  let grows = next_nat t in let gcols = next_nat t in let lrows = next_nat t in let lcols = next_nat t in
+  let grows = next_natm t in let gcols = next_natm t in let lrows = next_natm t in let lcols = next_natm t in
   let rowm = read_map t in let onm = read_map t in let offm = read_map t in
   let x = read_vd t in let b = read_vd t in let tmp = read_vd t in
   let hasp = next_int t in
   let p = if hasp = 1 then begin
-      let pg = next_nat t in let pc = next_nat t in let pl = next_nat t in let plc = next_nat t in
+      let pg = next_natm t in let pc = next_natm t in let pl = next_natm t in let plc = next_natm t in
       let pr = read_map t in let po = read_map t in let pf = read_map t in
       Some { pd_grows = pg; pd_gcols = pc; pd_lrows = pl; pd_lcols = plc; pd_rowmap = pr; pd_onmap = po; pd_offmap = pf }
     end else None in
@@ -52,17 +68,17 @@ let run_case cid (t : toks) =
   let op = next t in
   match op with
   | "dump" ->
-    let mc = next_nat t in
+    let mc = next_natm t in
     let mli = next_int t in
-    let ml = if mli < 0 then None else Some (nat_of_int mli) in
-    let fuel = next_nat t in
+    let ml = if mli < 0 then None else Some (natm mli) in
+    let fuel = next_natm t in
     let nlev = next_int t in let nranks = next_int t in
     let ls = take nlev (fun () -> read_level t nranks) in
     Printf.printf "%s HOK %s\n" cid (b2s (q_hier_ok mc ml ls));
     let arr = Array.of_list ls in
     Array.iteri (fun l lv ->
         let n = lv.ld_A.csr_nr in
-        let cont = continue_cond mc ml n (nat_of_int (l + 1)) in
+        let cont = continue_cond mc ml n (natm (l + 1)) in
         let base = [ q_sizes_ok lv; q_vectors_ok lv; q_maps_ok lv; cont ] in
         let extra = if l + 1 < Array.length arr then begin
             let nx = arr.(l + 1) in
